@@ -28,13 +28,13 @@ ShapeId(sh) == CHOOSE i \in 1..Cardinality(MCShapes) : SetToSeq(MCShapes)[i] = s
 
 Start ==
     /\ Ready /\ Len(hist) < MaxOps
-    /\ \/ \E sh \in MCShapes : IngestLock("c1", sh) /\ hist' = Append(hist, [op |-> "ingest", req |-> nreq + 1])
+    /\ \/ IngestLock("c1") /\ hist' = Append(hist, [op |-> "ingest", req |-> nreq + 1])
        \/ ForceFlushCall /\ hist' = Append(hist, [op |-> "flush", req |-> 0])
        \/ (\E t \in AllT : parts[t] # {}) /\ EvictAll /\ hist' = Append(hist, [op |-> "evict", req |-> 0])
        \/ Shutdown /\ hist' = Append(hist, [op |-> "restart", req |-> 0])
 Continue ==
     /\ ~Ready
-    /\ \/ IngestCatalogue("c1") \/ WalAssign("c1") \/ WalStore("c1") \/ (\E t \in AllT : ApplyTable("c1", t)) \/ IngestAck("c1")
+    /\ \/ (\E sh \in MCShapes : IngestCatalogue("c1", sh)) \/ WalAssign("c1") \/ WalStore("c1") \/ (\E t \in AllT : ApplyTable("c1", t)) \/ IngestAck("c1")
        \/ FlushNext
        \/ RecNext
     /\ hist' = hist
@@ -51,21 +51,21 @@ MinT(S) == CHOOSE t \in S : \A u \in S : Idx(t) <= Idx(u)
 Shrunk(old, new) == old \ new
 Canon ==
     /\ (fl'.todoFreeze # fl.todoFreeze /\ fl.todoFreeze # {}) => Shrunk(fl.todoFreeze, fl'.todoFreeze) = {MinT(fl.todoFreeze)}
-    /\ (fl.pc = "batching" /\ fl'.pc = "batching" /\ fl' # fl) =>
+    /\ (fl.pc = "batching" /\ fl'.pc = "batching" /\ fl' # fl /\ fl.todo # {}) =>
            \/ Shrunk(fl.todo, fl'.todo) = {MinT(fl.todo)}
            \/ fl'.batched = fl.batched \cup {MinT(fl.todo)}
-    /\ (fl.pc = "persisting" /\ fl'.pc = "persisting") =>
+    /\ (PersistPhase /\ fl'.persisted # fl.persisted) =>
            LET pend == {p.t : p \in {x \in fl.newParts : PKey(x) \notin fl.inserted}}
            IN \A x \in (fl'.persisted \ fl.persisted) : x.p.t = MinT(pend)
-    /\ (fl.pc = "persisting" /\ fl'.pc = "persisting") =>
+    /\ (PersistPhase /\ fl'.inserted # fl.inserted) =>
            LET pend == {p.t : p \in {x \in fl.newParts : PKey(x) \notin fl.inserted}}
            IN \A x \in (fl'.inserted \ fl.inserted) : x.t = MinT(pend)
-    /\ (fl.pc = "compacting" /\ fl'.pc = "compacting" /\ fl'.plans # fl.plans) =>
+    /\ (CompactPhase /\ fl'.pc = "batching" /\ fl'.plans # fl.plans /\ fl.todo = {}) =>
            LET pend == {pl.t : pl \in {x \in fl.plans : x.st # "done"}}
            IN \A x \in (fl'.plans \ fl.plans) : x.t = MinT(pend)
     /\ \A c \in Clients : (ing'[c].toApply # ing[c].toApply /\ ing[c].toApply # {}) =>
            Shrunk(ing[c].toApply, ing'[c].toApply) = {MinT(ing[c].toApply)}
-    /\ (fl.pc = "walDelete" /\ fl'.pc = "walDelete") => \A i \in Shrunk(fl.todo, fl'.todo) : \A j \in fl.todo : i <= j
+    /\ (fl.pc = "meta" /\ fl'.pc = "meta") => \A i \in Shrunk(fl.todo, fl'.todo) : \A j \in fl.todo : i <= j
     /\ (rec.pc = "wal" /\ rec'.pc = "wal") => \A w \in Shrunk(rec.todoWal, rec'.todoWal) : \A v \in rec.todoWal : w.id <= v.id
 
 Bound == \A t \in AllT : nextPid[t] <= 2 * MaxOps + 2
